@@ -469,8 +469,22 @@ def check_f(ctx, facts, sm, tier, seed):
             w = D.wire('zz', 5)
             D.make('Reg', 'r', w, D.wire('zq', 5))
             D.make('Not', 'n', w, D.wire('zn', 5))
-            hierarchy_text(D)
+            t_other = hierarchy_text(D)
             D.sys = keep
+            # one generator object asked for a circuit other than the one it was created for: the text is that of a fresh generator
+            g_first = generator(D)
+            try:
+                t_cross = D.el.call(D.el.getattr_(g_first, 'getVerilogForHierarchy'), [other], {}, {})
+            except (ElabRaise, PyExc) as e:
+                t_cross = None
+            if t_cross is not None and split_modules(t_cross) != split_modules(t_other):
+                mo, mc = split_modules(t_other), split_modules(t_cross)
+                dm = [k for k in set(mo) | set(mc) if mo.get(k) != mc.get(k)][:3]
+                lines = [x for k in dm[:1] for x in (mo.get(k) or [[]])[0] if x not in (mc.get(k) or [[]])[0]][:3]
+                ctx.violation('C19.f', 'generator-reused-for-another-circuit:%s' % name.split(' ')[0], 'a generator created for one circuit, asked for another circuit, does not give the text a fresh generator gives '
+                              '(something collected when the generator was created answers for blocks it never saw)', where,
+                              witness=dict(design=name, history='g = VerilogGenerator(top1); g.getVerilogForHierarchy(top2)', differing_modules=dm, lines_missing=lines))
+                continue
             t2 = hierarchy_text(D)
             if split_modules(t2) != m1:
                 ctx.violation('C19.f', 'repeat:%s' % name.split(' ')[0], 'a repeated request (with a request for another circuit in between) yields a different design', where,
